@@ -41,11 +41,34 @@ TYPES = [
          fields=[['top_left', 'r_top_left'], ['top_right', 'r_top_right'], ['bottom_right', 'r_bottom_right'], ['bottom_left', 'r_bottom_left']]),
     dict(rust='RoundedRect', file=S + 'rounded_rect.rs', coq='RoundedRect T', ctor='mkRoundedRect', fields=[['rect', 'rr_rect'], ['radii', 'rr_radii']]),
     dict(rust='Triangle', file=S + 'triangle.rs', coq='Triangle T', ctor='mkTriangle', fields=[['a', 'tri_a'], ['b', 'tri_b'], ['c', 'tri_c']]),
+    dict(rust='BezPath', file=S + 'bezpath.rs', transparent=True),
+    dict(rust='Join', file=S + 'stroke.rs', coq='KV.Stroke.Join', variants=[['Bevel', 'KV.Stroke.JoinBevel'], ['Miter', 'KV.Stroke.JoinMiter'], ['Round', 'KV.Stroke.JoinRound']]),
+    dict(rust='Cap', file=S + 'stroke.rs', coq='KV.Stroke.Cap', variants=[['Butt', 'KV.Stroke.CapButt'], ['Square', 'KV.Stroke.CapSquare'], ['Round', 'KV.Stroke.CapRound']]),
+    dict(rust='Stroke', file=S + 'stroke.rs', coq='KV.Stroke.StrokeStyle T', ctor='KV.Stroke.mkStyle', partial=True,
+         fields=[['width', 'KV.Stroke.sk_width'], ['join', 'KV.Stroke.sk_join'], ['miter_limit', 'KV.Stroke.sk_miter_limit'],
+                 ['start_cap', 'KV.Stroke.sk_start_cap'], ['end_cap', 'KV.Stroke.sk_end_cap']]),
+    dict(rust='StrokeCtx', file=S + 'stroke.rs', coq='KV.Stroke.StrokeCtx T', ctor='KV.Stroke.mkCtx',
+         fields=[['output', 'KV.Stroke.cx_output'], ['forward_path', 'KV.Stroke.cx_forward'], ['backward_path', 'KV.Stroke.cx_backward'],
+                 ['start_pt', 'KV.Stroke.cx_start_pt'], ['start_norm', 'KV.Stroke.cx_start_norm'], ['start_tan', 'KV.Stroke.cx_start_tan'],
+                 ['last_pt', 'KV.Stroke.cx_last_pt'], ['last_tan', 'KV.Stroke.cx_last_tan'], ['join_thresh', 'KV.Stroke.cx_join_thresh']]),
+    dict(rust='DashState', file=S + 'stroke.rs', coq='KV.Dash.DashState',
+         variants=[['NeedInput', 'KV.Dash.NeedInput'], ['ToStash', 'KV.Dash.ToStash'], ['Working', 'KV.Dash.Working'], ['FromStash', 'KV.Dash.FromStash']]),
+    dict(rust='DashIterator', file=S + 'stroke.rs', coq='KV.Dash.DS T', ctor='KV.Dash.mkDS', usize_as_nat=True,
+         fields=[['inner', 'KV.Dash.inner', 'Vec<PathEl>'], ['input_done', 'KV.Dash.input_done'], ['closepath_pending', 'KV.Dash.closepath_pending'],
+                 ['dash_ix', 'KV.Dash.dash_ix'], ['is_active', 'KV.Dash.is_active'], ['state', 'KV.Dash.state'], ['current_seg', 'KV.Dash.current_seg'],
+                 ['t', 'KV.Dash.cur_t'], ['dash_remaining', 'KV.Dash.dash_remaining'], ['seg_remaining', 'KV.Dash.seg_remaining'],
+                 ['start_pt', 'KV.Dash.start_pt'], ['last_pt', 'KV.Dash.last_pt'], ['stash', 'KV.Dash.stash'], ['stash_ix', 'KV.Dash.stash_ix']],
+         ambient=[['dashes', 'dashes_'], ['init_dash_ix', '(KV.Dash.p_ix init_)'], ['init_dash_remaining', '(KV.Dash.p_rem init_)'], ['init_is_active', '(KV.Dash.p_act init_)']],
+         ambient_binders=[['arclen_', '(PathSeg T) -> T'], ['inv_arclen_', '(PathSeg T) -> T -> T'], ['dashes_', 'list T'], ['init_', 'KV.Dash.Phase T']]),
+    # no model record: the iterator state is the triple (c, i, n)
+    dict(rust='ToQuads', file=S + 'cubicbez.rs', coq='(CubicBez T * Z * Z)%type', destruct=False,
+         ctor='(fun tr_c tr_i tr_n => (tr_c, tr_i, tr_n))',
+         fields=[['c', '(fun tr_s => fst (fst tr_s))'], ['i', '(fun tr_s => snd (fst tr_s))'], ['n', '(fun tr_s => snd tr_s)']]),
     dict(rust='TranslateScale', file=S + 'translate_scale.rs', coq='TranslateScale T', ctor='mkTS',
          fields=[['translation', 'ts_translation'], ['scale', 'ts_scale']]),
 ]
 
-IMPORTS = ['Scalar', 'Geom', 'Rect', 'Curves', 'Path', 'Affine', 'ShapeTypes', 'AffineOps', 'Solvers', 'Extrema', 'Flatten', 'ToQuads', 'Nearest', 'Winding', 'ShapeQueries', 'ShapePaths', 'Arclen']
+IMPORTS = ['Scalar', 'Geom', 'Rect', 'Curves', 'Path', 'Affine', 'ShapeTypes', 'AffineOps', 'Solvers', 'Extrema', 'Flatten', 'ToQuads', 'Nearest', 'Winding', 'ShapeQueries', 'ShapePaths', 'Arclen', 'PathOps', 'Stroke', 'Dash']
 
 FUNS = []
 
@@ -241,7 +264,7 @@ F('quadbez.rs', 'QuadBez', 'start', 'quad_start', C + 'quad_start', trait='Param
 F('quadbez.rs', 'QuadBez', 'end', 'quad_end', C + 'quad_end', trait='ParamCurve')
 F('quadbez.rs', 'QuadBez', 'deriv', 'quad_deriv', C + 'quad_deriv', trait='ParamCurveDeriv')
 F('quadbez.rs', 'QuadBez', 'signed_area', 'quad_signed_area', C + 'quad_signed_area', trait='ParamCurveArea')
-F('quadbez.rs', 'QuadBez', 'extrema', 'quad_extrema', EX + 'quad_extrema', trait='ParamCurveExtrema', extern=True)
+F('quadbez.rs', 'QuadBez', 'extrema', 'quad_extrema', EX + 'quad_extrema', trait='ParamCurveExtrema', bridge='Extrema_bridge')
 # ---------------------------------------------------------------- cubicbez.rs
 F('cubicbez.rs', 'CubicBez', 'new', 'cubic_new')
 F('cubicbez.rs', 'CubicBez', 'eval', 'cubic_eval', C + 'cubic_eval', trait='ParamCurve')
@@ -251,7 +274,8 @@ F('cubicbez.rs', 'CubicBez', 'start', 'cubic_start', C + 'cubic_start', trait='P
 F('cubicbez.rs', 'CubicBez', 'end', 'cubic_end', C + 'cubic_end', trait='ParamCurve')
 F('cubicbez.rs', 'CubicBez', 'deriv', 'cubic_deriv', C + 'cubic_deriv', trait='ParamCurveDeriv')
 F('cubicbez.rs', 'CubicBez', 'signed_area', 'cubic_signed_area', C + 'cubic_signed_area', trait='ParamCurveArea')
-F('cubicbez.rs', 'CubicBez', 'extrema', 'cubic_extrema', EX + 'cubic_extrema', trait='ParamCurveExtrema', extern=True)
+F('cubicbez.rs', None, 'one_coord', 'cubic_one_coord', EX + 'cubic_one_coord', nested_in='extrema', bridge='Extrema_bridge', model_app='$0 ++ KV.Extrema.cubic_one_coord $1 $2 $3')
+F('cubicbez.rs', 'CubicBez', 'extrema', 'cubic_extrema', EX + 'cubic_extrema', trait='ParamCurveExtrema', bridge='Extrema_bridge')
 # ---------------------------------------------------------------- bezpath.rs: PathSeg dispatch
 F('bezpath.rs', 'PathSeg', 'eval', 'seg_eval', C + 'seg_eval', trait='ParamCurve')
 F('bezpath.rs', 'PathSeg', 'subsegment', 'seg_subsegment', C + 'seg_subsegment', trait='ParamCurve')
@@ -356,6 +380,70 @@ F('cubicbez.rs', 'CubicBez', 'from_parameters', 'cubic_from_parameters', TQ + 'c
 F('cubicbez.rs', 'CubicBez', 'subdivide_3', 'cubic_subdivide_3', TQ + 'cubic_subdivide_3')
 
 
+# ---------------------------------------------------------------- &mut self: BezPath builders, the stroker (C04, C07)
+PO, SK = 'KV.PathOps.', 'KV.Stroke.'
+STYLE = '(KV.Stroke.mkStyle (KV.Stroke.sk_width $S) (KV.Stroke.sk_join $S) (KV.Stroke.sk_miter_limit $S) (KV.Stroke.sk_start_cap $S) (KV.Stroke.sk_end_cap $S) true)'
+F('bezpath.rs', 'BezPath', 'push', 'bp_push', PO + 'bp_push')
+F('bezpath.rs', 'BezPath', 'move_to', 'bp_move_to', PO + 'bp_move_to')
+F('bezpath.rs', 'BezPath', 'line_to', 'bp_line_to', PO + 'bp_line_to')
+F('bezpath.rs', 'BezPath', 'quad_to', 'bp_quad_to', PO + 'bp_quad_to')
+F('bezpath.rs', 'BezPath', 'curve_to', 'bp_curve_to', PO + 'bp_curve_to')
+F('bezpath.rs', 'BezPath', 'close_path', 'bp_close_path', PO + 'bp_close_path')
+F('stroke.rs', None, 'round_cap', 'sk_round_cap', SK + 'round_cap_els', extern=True, call='$0 ++ KV.Stroke.round_cap_els $1 $2 $3')
+F('stroke.rs', None, 'round_join', 'sk_round_join', SK + 'round_join_els', extern=True, call='$0 ++ KV.Stroke.round_join_els $1 $2 $3 $4')
+F('stroke.rs', None, 'round_join_rev', 'sk_round_join_rev', SK + 'round_join_rev_els', extern=True, call='$0 ++ KV.Stroke.round_join_rev_els $1 $2 $3 $4')
+F('stroke.rs', None, 'extend_reversed', 'sk_extend_reversed', SK + 'extend_reversed', extern=True, call='$0 ++ KV.Stroke.extend_reversed $1')
+# model shape differs: the model writes [- f1] where the source has the literal -1.0 (= fofZ (-1)); not provable for an abstract scalar
+F('stroke.rs', None, 'square_cap', 'sk_square_cap', SK + 'square_cap_els', extern=True, call='$0 ++ KV.Stroke.square_cap_els $1 $2 $3')
+F('stroke.rs', 'StrokeCtx', 'do_line', 'sk_do_line', SK + 'do_line', model_app='KV.Stroke.do_line ' + STYLE.replace('$S', '$1') + ' $2 $3 $0')
+F('stroke.rs', 'StrokeCtx', 'do_join', 'sk_do_join', SK + 'do_join', bridge='Stroke_bridge', model_app='KV.Stroke.do_join ' + STYLE.replace('$S', '$1') + ' $2 $0')
+F('stroke.rs', 'StrokeCtx', 'finish', 'sk_finish', SK + 'finish', bridge='Stroke_bridge', model_app='KV.Stroke.finish ' + STYLE.replace('$S', '$1') + ' $0')
+F('stroke.rs', 'StrokeCtx', 'finish_closed', 'sk_finish_closed', SK + 'finish_closed', bridge='Stroke_bridge', model_app='KV.Stroke.finish_closed ' + STYLE.replace('$S', '$1') + ' $0')
+
+
+# ---------------------------------------------------------------- the dash iterator (C13)
+DS = 'KV.Dash.'
+DI = "DashIterator<'a,T>"
+F('stroke.rs', None, 'DASH_ACCURACY', 'DASH_ACCURACY', const=True)
+F('stroke.rs', None, 'seg_to_el', 'dash_seg_to_el', DS + 'seg_to_el')
+# the model is parametric in the two arc-length functions; the accuracy argument (a constant) is dropped
+F('bezpath.rs', 'PathSeg', 'inv_arclen', 'seg_inv_arclen', trait='ParamCurveArclen', extern=True, call='inv_arclen_ $0 $1')
+F('stroke.rs', DI, 'get_input', 'dash_get_input', DS + 'get_input', extern=True, call='KV.Dash.get_input arclen_ KV.Dash.fixes_all init_ $0')
+F('stroke.rs', DI, 'reset_phase', 'dash_reset_phase', DS + 'reset_phase', model_app='KV.Dash.reset_phase init_ $0')
+F('stroke.rs', DI, 'handle_closepath', 'dash_handle_closepath', DS + 'handle_closepath', model_app='KV.Dash.handle_closepath KV.Dash.fixes_all init_ $0')
+F('stroke.rs', DI, 'step', 'dash_step', DS + 'step', bridge='Dash_bridge', model_app='KV.Dash.step arclen_ inv_arclen_ KV.Dash.fixes_all dashes_ init_ $0')
+
+
+# ---------------------------------------------------------------- loops: extrema ranges, bounding boxes (C08)
+F('param_curve.rs', 'PathSeg', 'extrema_ranges', 'seg_extrema_ranges', EX + 'extrema_ranges', trait_default='ParamCurveExtrema', bridge='Extrema_bridge',
+  model_app='KV.Extrema.extrema_ranges (KV.Extrema.seg_extrema $0)')
+F('param_curve.rs', 'QuadBez', 'bounding_box', 'quad_bounding_box', EX + 'quad_bounding_box', trait_default='ParamCurveExtrema', bridge='Extrema_bridge')
+F('param_curve.rs', 'CubicBez', 'bounding_box', 'cubic_bounding_box', EX + 'cubic_bounding_box', trait_default='ParamCurveExtrema', bridge='Extrema_bridge')
+F('param_curve.rs', 'PathSeg', 'bounding_box', 'seg_bounding_box', EX + 'seg_bounding_box', trait_default='ParamCurveExtrema', bridge='Extrema_bridge')
+
+
+# ---------------------------------------------------------------- quartic solver, outer layers (C15)
+F('common.rs', None, 'factor_quartic_inner', 'factor_quartic_inner', SV + 'factor_quartic_inner', extern=True,
+  call='match KV.Solvers.factor_quartic_inner $0 $1 $2 $3 $4 with Some (tr_q1, tr_q2) => Some [tr_q1; tr_q2] | None => None end')
+F('common.rs', None, 'solve_quartic_inner', 'solve_quartic_inner', SV + 'solve_quartic_inner', bridge='Solvers_bridge')
+F('common.rs', None, 'solve_quartic', 'solve_quartic', SV + 'solve_quartic')
+# ---------------------------------------------------------------- QuadBez::nearest, the two local helpers (C09)
+F('quadbez.rs', None, 'eval_t', 'nr_eval_t', NR + 'nr_eval_t', nested_in='nearest', model_app='KV.Nearest.nr_eval_t $0 ($1, $2) $3 $4')
+F('quadbez.rs', None, 'try_t', 'nr_try_t', NR + 'nr_try_t', nested_in='nearest',
+  model_app="let '(tr_b, tr_st) := KV.Nearest.nr_try_t $0 $1 ($2, $3) $4 in (tr_b, fst tr_st, snd tr_st)")
+# the model returns [None] where the code would panic ([r_best.unwrap()], unreachable): agreement wherever the model is defined
+F('quadbez.rs', 'QuadBez', 'nearest', 'quad_nearest', NR + 'quad_nearest', trait='ParamCurveNearest', bridge='Nearest_bridge',
+  stmt='match KV.Nearest.quad_nearest $0 $1 with Some tr_r => $G = tr_r | None => True end')
+# ---------------------------------------------------------------- CubicBez::to_quads / ToQuads::next (C17, C09)
+F('cubicbez.rs', 'CubicBez', 'to_quads', 'cubic_to_quads', TQ + 'to_quads_count', ret='ToQuads',
+  stmt='$G = ($0, 0%Z, KV.ToQuads.to_quads_count $0 $1)')
+F('cubicbez.rs', 'ToQuads', 'next', 'to_quads_next', TQ + 'to_quads_piece', trait='Iterator',
+  stmt='$G = (if Z.eqb (snd (fst $0)) (snd $0) then (None, $0) else (Some (KV.ToQuads.to_quads_piece (fst (fst $0)) (snd $0) (snd (fst $0))), (fst (fst $0), Z.add (snd (fst $0)) 1, snd $0)))')
+# ---------------------------------------------------------------- winding (C01)
+F('bezpath.rs', 'PathSeg', 'winding_inner', 'winding_inner', WD + 'winding_inner', bridge='Winding_bridge')
+F('bezpath.rs', 'PathSeg', 'winding', 'seg_winding', WD + 'seg_winding', bridge='Winding_bridge')
+
+
 # ---------------------------------------------------------------- props by reachability
 KW = r'(?:Definition|Fixpoint|Lemma|Theorem|Example|Corollary|Remark|Fact|Instance|Let|Function|Program Definition|Program Fixpoint)'
 
@@ -447,7 +535,8 @@ def main():
         comment='kurbo2coq spec; regenerate with tools/kurbo2coq/mkspec.py. model = hand-model constant the generated definition must be definitionally equal to (null: helper without a model counterpart, inlined by reflexivity into its users).',
         imports=IMPORTS,
         derived_eq={'Point': 'KV.Geom.pt_eqb'},
-        consts={'PI': 'fpi'},
+        consts={'PI': 'fpi', 'sort_by_partial_cmp': 'KV.Extrema.sort_asc'},
+        panic_defaults={'f64': 'f0', 'Point': '(mkPoint f0 f0)', 'PathEl': '(MoveTo (mkPoint f0 f0))'},
         types=TYPES,
         functions=FUNS,
     )
